@@ -420,6 +420,32 @@ func (c *Ctx) c02Signer(ks string) {
 			wantKey := recv + "." + ak + ".Keys[" + el + ".Amount].PrivateKey"
 			k := o.Of(d.Args[1])
 			R.Check("R5", fk, "signing key", c.P.InstrPos(ci), exprIs(k, wantKey), "the signing key is the active keyset's key for the message's own amount", "key is "+short(k.String(), 160)+", expected "+wantKey)
+			// one view of the active keyset per message: the reads of the active-keyset pointer that decide the id check,
+			// the key and the emitted id are all made per message (inside the loop) or all once before it - a mix labels
+			// signatures made with one keyset's key with another keyset's id when a rotation lands in between
+			if l := c.P.OriginsOf(f0).Loops.InnermostContaining(ci.Block()); l != nil {
+				in, out := 0, 0
+				for _, bb := range f0.Blocks {
+					for _, ins := range bb.Instrs {
+						ld, ok := ins.(*ssa.UnOp)
+						if !ok || ld.Op.String() != "*" {
+							continue
+						}
+						fa, ok := ld.X.(*ssa.FieldAddr)
+						if !ok || fieldName(fa) != ak {
+							continue
+						}
+						if l.Blocks[bb] {
+							in++
+						} else {
+							out++
+						}
+					}
+				}
+				R.Check("R5", fk, "active keyset read consistently per message", c.P.InstrPos(ci), in == 0 || out == 0,
+					"the id compared, the key used and the id emitted come from reads of the active keyset made at the same place (all per message, or one snapshot before the loop)",
+					fmt.Sprintf("%d reads of the active keyset inside the signing loop and %d before it", in, out))
+			}
 			b := o.Of(d.Args[0])
 			okB := (isCallSuffix(b, "btcec.ParsePubKey") || isCallSuffix(b, "secp256k1.ParsePubKey")) && b.Idx == 0 &&
 				isCall(arg(b, 0), fnHexDecode) && exprIs(arg(arg(b, 0), 0), el+".B_")
